@@ -48,7 +48,8 @@ def main():
             rep = " ".join(str(other).split())[:300].replace("|", "\\|")
         else:
             missed.append(name)
-            rep = "NOT REPORTED (rc=%s)" % rc
+            why = meta.get("not_reported_reason")
+            rep = "NOT REPORTED (rc=%s)" % rc + (": " + " ".join(str(why).split())[:320].replace("|", "\\|") if why else "")
         rows.append("| %s | %s | %s |" % (name, what, rep))
     head = ["| seeded change | what it does (from its meta.json) | reported by (first keys) |", "|---|---|---|"]
     table = "\n".join(head + rows)
